@@ -1,5 +1,6 @@
 import OsacaVerif.Model.DG
 import OsacaVerif.Spec.Deps
+import OsacaVerif.Lemmas.DGraph
 /-
   C03 — Register dependency graph is exactly the read-after-write relation.
 
@@ -150,5 +151,227 @@ example :
     (create .x86 false {} [mk 1 [] [r "rax"], mk 2 [r "rax"] [r "rbx"], mk 3 [] [r "eax"],
       mk 4 [r "rax"] [r "rcx"]]).map (fun e => (e.src.line, e.dst.line)) = [(1, 2), (3, 4)] := by
   decide +kernel
+
+/-! ### graph level: `emissions` / `create` against the declarative read-after-write relation -/
+
+/-- `Spec.rawAt` spelled out for two existing positions -/
+theorem rawAt_iff (isa : Isa) (fd : Bool) (k : List Ins) (i j : Nat) (p c : Ins)
+    (hi : k[i]? = some p) (hj : k[j]? = some c) :
+    rawAt isa fd k i j = true ↔
+      i < j ∧ ∃ t ∈ targetsOf fd p, isRead isa t c = true ∧
+        ∀ d < j - i - 1, ∀ m, k[i + 1 + d]? = some m → isWritten isa t m = false := by
+  unfold rawAt
+  rw [hi, hj]
+  simp only [Bool.and_eq_true, decide_eq_true_eq, List.any_eq_true, List.all_eq_true, List.mem_range]
+  constructor
+  · rintro ⟨hij, t, ht, hr, hall⟩
+    refine ⟨hij, t, ht, hr, fun d hd m hm => ?_⟩
+    have := hall d hd
+    rw [hm] at this
+    simpa using this
+  · rintro ⟨hij, t, ht, hr, hall⟩
+    refine ⟨hij, t, ht, hr, fun d hd => ?_⟩
+    cases hm : k[i + 1 + d]? with
+    | none => rfl
+    | some m => simp [hall d hd m hm]
+
+/-- **C03 at graph level (`edges_iff_raw`)**: in a kernel with strictly increasing line numbers, for
+    the instructions `p`, `c` at positions `i`, `j`: `create_DG` emits a dependency edge
+    `p.line → c.line` on behalf of a register / flag destination of `p` **iff** `c` comes later, reads
+    a register (flag) that `p` writes, and no instruction strictly between them overwrites it
+    (`Spec.rawAt`, defined from the operand roles only).  `regEmissions` are exactly the emissions of
+    `create_DG` that arise from a register / flag destination (`mem_emissions`, `regEmissions_sublist`);
+    the remaining ones are load-node edges and store→load edges (C06). -/
+theorem edges_iff_raw (isa : Isa) (fd : Bool) (par : Params) (k : List Ins) (hk : WFKernel k)
+    (i j : Nat) (p c : Ins) (hi : k[i]? = some p) (hj : k[j]? = some c) :
+    (∃ e ∈ regEmissions isa fd par k, e.src = ⟨p.line, false⟩ ∧ e.dst = ⟨c.line, false⟩) ↔
+      rawAt isa fd k i j = true := by
+  rw [rawAt_iff isa fd k i j p c hi hj]
+  constructor
+  · rintro ⟨e, he, hsrc, hdst⟩
+    obtain ⟨i', p', hi', x, hx, rfl⟩ := (mem_regEmissions isa fd par k e).mp he
+    simp only [depEdge, Node.mk.injEq, and_true] at hsrc hdst
+    have hii : i' = i := hk.pos_unique hi' hi hsrc
+    subst hii
+    have hpp : p' = p := by rw [hi] at hi'; exact (Option.some.inj hi').symm
+    subst hpp
+    obtain ⟨t, ht, hscan⟩ := (mem_findDependingReg isa fd p' _ x).mp hx
+    obtain ⟨_, j', c', hj', hl, hr, hall⟩ := (scan_iff_raw isa t _ _ x.1 x.2).mp hscan
+    rw [List.getElem?_drop] at hj'
+    have hjj : i' + 1 + j' = j := hk.pos_unique hj' hj (hl.trans hdst)
+    have hcc : c' = c := by rw [hjj, hj] at hj'; exact (Option.some.inj hj').symm
+    subst hcc
+    refine ⟨by omega, t, ht, hr, ?_⟩
+    intro d hd m hm
+    exact hall d (by omega) m (by rw [List.getElem?_drop]; exact hm)
+  · rintro ⟨hij, t, ht, hr, hall⟩
+    have hscan : (c.line, targetTag t) ∈ scanTarget isa t (targetTag t) (k.drop (i + 1)) := by
+      refine (scan_iff_raw isa t _ _ _ _).mpr ⟨rfl, j - i - 1, c, ?_, rfl, hr, ?_⟩
+      · rw [List.getElem?_drop, ← hj]; congr 1; omega
+      · intro m hm w hw
+        rw [List.getElem?_drop] at hw
+        exact hall m hm w hw
+    refine ⟨depEdge par p (c.line, targetTag t), ?_, rfl, rfl⟩
+    exact (mem_regEmissions isa fd par k _).mpr
+      ⟨i, p, hi, _, (mem_findDependingReg isa fd p _ _).mpr ⟨t, ht, hscan⟩, rfl⟩
+
+/-- completeness on the final graph: every read-after-write pair is an edge of `create` -/
+theorem raw_edge_in_create (isa : Isa) (fd : Bool) (par : Params) (k : List Ins) (hk : WFKernel k)
+    (i j : Nat) (p c : Ins) (hi : k[i]? = some p) (hj : k[j]? = some c)
+    (h : rawAt isa fd k i j = true) :
+    ∃ e ∈ create isa fd par k, e.src = ⟨p.line, false⟩ ∧ e.dst = ⟨c.line, false⟩ := by
+  obtain ⟨e, he, hs, hd⟩ := (edges_iff_raw isa fd par k hk i j p c hi hj).mpr h
+  have hem : e ∈ emissions isa fd par k := (regEmissions_sublist isa fd par k).subset he
+  have : pairOf e ∈ (create isa fd par k).map pairOf :=
+    (dedupLast_pairs_iff _ _).mpr (List.mem_map.mpr ⟨e, hem, rfl⟩)
+  obtain ⟨e', he', hp⟩ := List.mem_map.mp this
+  simp only [pairOf, Prod.mk.injEq] at hp
+  exact ⟨e', he', hp.1.trans hs, hp.2.trans hd⟩
+
+/-- **`dedupLast_pairs`** (`add_edge` semantics, ∀ emission lists): the result has exactly the
+    (source, target) pairs of the emissions, each pair once, and an edge is in the result iff it is
+    the LAST emission for its pair — so its weight is the weight of that last emission. -/
+theorem dedupLast_pairs (es : List Edge) :
+    ((dedupLast es).map pairOf).Nodup ∧
+    (∀ pr, pr ∈ (dedupLast es).map pairOf ↔ pr ∈ es.map pairOf) ∧
+    (∀ e, e ∈ dedupLast es ↔ ∃ pre post, es = pre ++ e :: post ∧ ∀ f ∈ post, pairOf f ≠ pairOf e) :=
+  ⟨dedupLast_nodup es, dedupLast_pairs_iff es, mem_dedupLast es⟩
+
+/-- **`create_edges_subset`**: the graph `create` consists of emissions only; it has exactly the
+    (source, target) pairs of the emissions, each once; the weight of a pair is that of the last
+    emission for it (as networkx' `add_edge` overwrites). -/
+theorem create_edges_subset (isa : Isa) (fd : Bool) (par : Params) (k : List Ins) :
+    (∀ e ∈ create isa fd par k, e ∈ emissions isa fd par k) ∧
+    ((create isa fd par k).map pairOf).Nodup ∧
+    (∀ pr, pr ∈ (create isa fd par k).map pairOf ↔ pr ∈ (emissions isa fd par k).map pairOf) ∧
+    (∀ e, e ∈ create isa fd par k ↔ ∃ pre post, emissions isa fd par k = pre ++ e :: post ∧
+        ∀ f ∈ post, pairOf f ≠ pairOf e) := by
+  refine ⟨?_, dedupLast_nodup _, dedupLast_pairs_iff _, mem_dedupLast _⟩
+  intro e he
+  obtain ⟨pre, post, h, _⟩ := (mem_dedupLast _ e).mp he
+  rw [h]; simp
+
+/-- shape of every emission: a load-node edge `(line, load) → (line)` or a dependency edge from the
+    producer to a strictly later line, both endpoints being lines of the kernel -/
+theorem emissions_shape (isa : Isa) (fd : Bool) (par : Params) (k : List Ins) (hk : WFKernel k)
+    (e : Edge) (he : e ∈ emissions isa fd par k) :
+    e.dst.load = false ∧ (∃ a ∈ k, a.line = e.src.line) ∧ (∃ b ∈ k, b.line = e.dst.line) ∧
+    ((e.src.load = false ∧ e.src.line < e.dst.line) ∨ (e.src.load = true ∧ e.src.line = e.dst.line)) := by
+  induction k with
+  | nil => simp [emissions] at he
+  | cons p rest ih =>
+    rw [emissions_cons] at he
+    simp only [List.mem_append, List.mem_map] at he
+    rcases he with (he | ⟨x, hx, rfl⟩) | he
+    · unfold loadEdge at he
+      split at he
+      · simp only [List.mem_singleton] at he
+        subst he
+        exact ⟨rfl, ⟨p, by simp, rfl⟩, ⟨p, by simp, rfl⟩, Or.inr ⟨rfl, rfl⟩⟩
+      · simp at he
+    · have hlt := findDepending_forward isa fd p rest hk.head_lt x.1 x.2 hx
+      have hin : ∃ c ∈ rest, c.line = x.1 := by
+        rcases (mem_findDepending isa fd p rest x).mp hx with h | h
+        · obtain ⟨t, _, hs⟩ := (mem_findDependingReg isa fd p rest x).mp h
+          exact scanTarget_lines _ _ _ _ _ _ hs
+        · simp only [findDependingMem, List.mem_flatMap] at h
+          obtain ⟨d, _, hd⟩ := h
+          cases d with
+          | mem m => exact scanMem_lines _ _ _ _ _ _ hd
+          | reg r => simp [memPart] at hd
+          | flag n => simp [memPart] at hd
+          | other => simp [memPart] at hd
+      obtain ⟨c, hc, hcl⟩ := hin
+      exact ⟨rfl, ⟨p, by simp, rfl⟩, ⟨c, List.mem_cons_of_mem _ hc, hcl⟩, Or.inl ⟨rfl, hlt⟩⟩
+    · obtain ⟨h1, ⟨a, ha, hal⟩, ⟨b, hb, hbl⟩, h4⟩ := ih hk.tail he
+      exact ⟨h1, ⟨a, List.mem_cons_of_mem _ ha, hal⟩, ⟨b, List.mem_cons_of_mem _ hb, hbl⟩, h4⟩
+
+/-- **`edges_forward`**: in a kernel with strictly increasing line numbers every edge of the
+    dependency graph goes from a smaller to a larger line; the only exception are the load-node
+    edges, which stay on their line.  (Hence the graph is acyclic and line order is a topological
+    order — what `get_critical_path` and the LCD search rely on.) -/
+theorem edges_forward (isa : Isa) (fd : Bool) (par : Params) (k : List Ins) (hk : WFKernel k)
+    (e : Edge) (he : e ∈ create isa fd par k) :
+    e.dst.load = false ∧
+    ((e.src.load = false ∧ e.src.line < e.dst.line) ∨ (e.src.load = true ∧ e.src.line = e.dst.line)) := by
+  have h := emissions_shape isa fd par k hk e ((create_edges_subset isa fd par k).1 e he)
+  exact ⟨h.1, h.2.2.2⟩
+
+/-- both endpoints of every edge of `create` are lines of the kernel -/
+theorem edges_in_kernel (isa : Isa) (fd : Bool) (par : Params) (k : List Ins) (hk : WFKernel k)
+    (e : Edge) (he : e ∈ create isa fd par k) :
+    (∃ a ∈ k, a.line = e.src.line) ∧ (∃ b ∈ k, b.line = e.dst.line) := by
+  have h := emissions_shape isa fd par k hk e ((create_edges_subset isa fd par k).1 e he)
+  exact ⟨h.2.1, h.2.2.1⟩
+
+/-- no instruction of the kernel has a memory destination (no store): then there are no store→load
+    emissions and the register/flag emissions are all dependency edges -/
+def NoMemDst (k : List Ins) : Prop :=
+  k.all (fun p => (p.dst ++ p.srcDst).all fun d => match d with | .mem _ => false | _ => true) = true
+
+instance (k : List Ins) : Decidable (NoMemDst k) := by unfold NoMemDst; infer_instance
+
+theorem memEmissions_nil (isa : Isa) (par : Params) (k : List Ins) (h : NoMemDst k) :
+    memEmissions isa par k = [] := by
+  induction k with
+  | nil => rfl
+  | cons p rest ih =>
+    unfold NoMemDst at h ih
+    simp only [List.all_cons, Bool.and_eq_true] at h
+    simp only [memEmissions, ih h.2, List.append_nil, List.map_eq_nil_iff, findDependingMem,
+      List.flatMap_eq_nil_iff]
+    intro d hd
+    have := List.all_eq_true.mp h.1 d hd
+    cases d <;> simp_all [memPart]
+
+theorem loadEmissions_src (k : List Ins) (e : Edge) (he : e ∈ loadEmissions k) : e.src.load = true := by
+  induction k with
+  | nil => simp [loadEmissions] at he
+  | cons p rest ih =>
+    simp only [loadEmissions, List.mem_append] at he
+    rcases he with he | he
+    · unfold loadEdge at he
+      split at he
+      · simp only [List.mem_singleton] at he; subst he; rfl
+      · simp at he
+    · exact ih he
+
+/-- **C03 on the final graph** for kernels without stores: `create` has an edge between the
+    instruction nodes of positions `i`, `j` iff `(i, j)` is a read-after-write pair. -/
+theorem create_iff_raw (isa : Isa) (fd : Bool) (par : Params) (k : List Ins) (hk : WFKernel k)
+    (hm : NoMemDst k) (i j : Nat) (p c : Ins) (hi : k[i]? = some p) (hj : k[j]? = some c) :
+    (∃ e ∈ create isa fd par k, e.src = ⟨p.line, false⟩ ∧ e.dst = ⟨c.line, false⟩) ↔
+      rawAt isa fd k i j = true := by
+  constructor
+  · rintro ⟨e, he, hs, hd⟩
+    refine (edges_iff_raw isa fd par k hk i j p c hi hj).mp ⟨e, ?_, hs, hd⟩
+    have hem := (create_edges_subset isa fd par k).1 e he
+    rcases (mem_emissions isa fd par k e).mp hem with h | h | h
+    · have := loadEmissions_src k e h
+      rw [hs] at this; cases this
+    · exact h
+    · rw [memEmissions_nil isa par k hm] at h; cases h
+  · exact raw_edge_in_create isa fd par k hk i j p c hi hj
+
+/-- a concrete kernel for the non-vacuity checks: `eax` written at line 3 kills the dependency of
+    line 4 on line 1 (aliasing widths) -/
+def demoKernel : List Ins :=
+  let r (n : String) : Op := .reg { name := Text.ofString n }
+  let mk (line : Nat) (src dst : List Op) : Ins :=
+    { line := line, src := src, dst := dst, srcDst := [], lat := 1, latWoLoad := none, hasLd := false,
+      isLd := false, changes := [], changesPost := [] }
+  [mk 1 [] [r "rax"], mk 2 [r "rax"] [r "rbx"], mk 3 [] [r "eax"], mk 4 [r "rax"] [r "rcx"]]
+
+-- non-vacuity: the hypothesis `WFKernel` holds of the demo kernel; both sides of `edges_iff_raw` are
+-- inhabited (positions 0 → 1 are RAW, positions 0 → 3 are not: killed at position 2)
+example : WFKernel demoKernel := by decide +kernel
+example : NoMemDst demoKernel := by decide +kernel
+example : rawAt .x86 false demoKernel 0 1 = true ∧ rawAt .x86 false demoKernel 0 3 = false ∧
+    rawAt .x86 false demoKernel 2 3 = true := by decide +kernel
+example : (regEmissions .x86 false {} demoKernel).map (fun e => (e.src.line, e.dst.line)) = [(1, 2), (3, 4)] := by
+  decide +kernel
+-- non-vacuity of `dedupLast_pairs`: the later emission for the pair (1, 2) overwrites the weight in place
+example : (dedupLast [⟨⟨1, false⟩, ⟨2, false⟩, 5⟩, ⟨⟨1, false⟩, ⟨3, false⟩, 1⟩, ⟨⟨1, false⟩, ⟨2, false⟩, 7⟩]).map
+    (fun e => (e.src.line, e.dst.line, e.w)) = [(1, 2, 7), (1, 3, 1)] := by decide +kernel
 
 end OsacaVerif.Props.C03
